@@ -582,6 +582,9 @@ Definition sm_handle (e : elem) (s : state) : state :=
 Definition dispatch (now : Z) (e : elem) (s0 : state) : R :=
   let s := note_rx e s0 in
   if negb (sm_alloc s) then (set_crashed true s, [OCrash]) else
+  (* every stanza handler present now is enabled before any handler runs (so that a handler added by an
+     id handler does not see this stanza) *)
+  let s := set_handlers (map (fun x => (fst x, true)) (handlers s)) s in
   (* id pass *)
   let r1 : R :=
     match idk_of (e_id e) with
@@ -591,10 +594,9 @@ Definition dispatch (now : Z) (e : elem) (s0 : state) : R :=
     | None => ret s
     end in
   let '(s1, o1) := r1 in
-  (* name pass: enable everything present now, visit that snapshot in order *)
-  let s2 := set_handlers (map (fun x => (fst x, true)) (handlers s1)) s1 in
-  let snapshot := map fst (handlers s2) in
-  let '(s3, o3) := fold_left (visit now e) snapshot (s2, o1) in
+  (* name pass: the handlers that were enabled at the start and are still registered, in list order *)
+  let snapshot := map fst (filter (fun x => snd x) (handlers s1)) in
+  let '(s3, o3) := fold_left (visit now e) snapshot (s1, o1) in
   if crashed s3 then (s3, o3) else
   if sm_enabled s3 then (sm_handle e s3, o3) else (s3, o3).
 
